@@ -17,7 +17,7 @@ func init() {
 		Run: runC14,
 		Explanation: "Closed-world inventory over the production program (E5): every Exec/Query/Prepare call on database/sql handles is enumerated; for handles derived from DB.db (the source) the SQL text folds to a constant (or constant fragments around the checkpoint mode, whose provenance is the three mode constants or the exported DB.Checkpoint parameter), " +
 			"write statements mention only _litestream_seq/_litestream_lock, PRAGMAs are limited to journal_mode=wal, page_size, wal_checkpoint; no (*sql.Tx).Commit exists anywhere in production code and every transaction begun on the source is rolled back on every path (a deferred rollback is passed on every path from BeginTx's nil edge, or the tx becomes the tracked long-lived read transaction); " +
-			"DB.f is only ever assigned from os.Open (read-only) and no write-class method is applied to it; no create/remove/rename targets a path derived from DB.path; init succeeds only in WAL mode; the DSN disables SQLite's auto-checkpoint.",
+			"DB.f is only ever assigned from os.Open (read-only) and no write-class method is applied to it; no create/remove/rename targets a path derived from DB.path; init succeeds only in WAL mode; the DSN disables SQLite's auto-checkpoint. One descriptor: os.Open/OpenFile of the source database path exists only as the long-lived db.f handle (closing a second descriptor would drop the POSIX locks of litestream's SQLite connections).",
 		NotDecided:  "SQLite honouring the statements; what the application does with the handle exposed by SQLDB()",
 		Assumptions: []string{"database/sql + modernc.org/sqlite execute exactly the SQL text they are given"},
 	})
@@ -251,6 +251,7 @@ func runC14(c *Ctx) {
 	{
 		const rule = "R3-source-file-read-only"
 		nSt := 0
+		nOpen := 0
 		for _, fn := range c.P.ProdFuncs() {
 			for _, st := range storesToField(fn, "DB.f") {
 				if st.Block().Parent() != fn {
@@ -273,6 +274,21 @@ func runC14(c *Ctx) {
 						c.check(okA, rule, fnName(fn)+": db.f passed to "+calleeName(call), c.pos(call), "as a reader", "the source database file handle is passed where it could be written")
 					}
 				}
+				// one descriptor: every further open()+close() of the database file inside this
+				// process drops the fcntl locks its SQLite connections hold (POSIX lock semantics)
+				if nm := calleeName(call); nm == "os.Open" || nm == "os.OpenFile" {
+					if p := call.Common().Args[0]; isSourcePathExact(p) {
+						nOpen++
+						stored := false
+						for _, st := range storesToField(fn, "DB.f") {
+							if v := call.Value(); v != nil && vIs(resultOf(call, 0))(st.Val) {
+								stored = true
+							}
+						}
+						c.check(stored, rule, fnName(fn)+": "+nm+"(source database path) is the long-lived db.f handle", c.pos(call), "result stored in DB.f",
+							"a second descriptor is opened on the source database: closing it releases the POSIX locks held by litestream's SQLite connections, so another process can checkpoint past the read mark and unlink the WAL under litestream")
+					}
+				}
 				// path-level mutators on paths derived from DB.path
 				var path ssa.Value
 				switch calleeName(call) {
@@ -291,6 +307,7 @@ func runC14(c *Ctx) {
 			}
 		}
 		c.floor(rule, nSt, 2, "assignments to DB.f")
+		c.floor(rule, nOpen, 1, "opens of the source database path")
 		c.ok(rule, "no production call creates/removes/renames/truncates a path derived from DB.path", "", "scanned every production call site")
 	}
 
@@ -475,4 +492,30 @@ func derivesFromSourcePath(v ssa.Value) bool {
 		return false
 	}
 	return w(v, 0)
+}
+
+
+// isSourcePathExact: v is the source database path itself (db.path / db.Path()),
+// not a path built from it (-wal, -shm, meta directory).
+func isSourcePathExact(v ssa.Value) bool {
+	os := origins(v)
+	if len(os) == 0 {
+		return false
+	}
+	for _, o := range os {
+		switch x := o.(type) {
+		case *ssa.UnOp:
+			fa, ok := x.X.(*ssa.FieldAddr)
+			if !ok || fieldAddrName(fa) != "DB.path" {
+				return false
+			}
+		case *ssa.Call:
+			if calleeName(x) != "(*ls.DB).Path" {
+				return false
+			}
+		default:
+			return false
+		}
+	}
+	return true
 }
